@@ -1864,7 +1864,10 @@ class PyCdlib:
         csum = 0
         curr_sector = 0
         while curr_sector < num_sectors:
-            block = data_fp.read(self.logical_block_size)
+            # The file object may hold more than the data_len bytes that make
+            # up the boot file, so never read beyond them.
+            block = data_fp.read(min(self.logical_block_size,
+                                     data_len - curr_sector * self.logical_block_size))
             block = block.ljust(2048, b'\x00')
             i = 0
             if curr_sector == 0:
